@@ -37,6 +37,10 @@ def parse_trace(path):
         if " = " not in rest: continue
         args, res = rest.rsplit(" = ", 1)
         out.append((pid, call, args, res))
+    # calls still in progress when the process was killed: strace prints them as `<unfinished ...>` and never resumes them; like the
+    # `= ?` lines they may or may not have taken effect
+    for (pid, call), args in pending.items():
+        out.append((pid, call, args.rstrip(", "), "? (unfinished at the kill)"))
     return out
 
 def quoted(args):
